@@ -35,10 +35,13 @@ class Budget(Exception):
 
 
 class Int:
-    __slots__ = ("t",)
+    __slots__ = ("t", "jsbool")
 
-    def __init__(self, t):
+    def __init__(self, t, jsbool=False):
         self.t = t
+        # JavaScript only: the value is a boolean (`!x`), not the number 0 / 1.  It behaves like the number everywhere
+        # except under strict equality with a number
+        self.jsbool = jsbool
 
     def __repr__(self):
         return "Int(%s)" % self.t
@@ -628,7 +631,7 @@ class Exec:
         if k == "not":
             t = self.as_int(self.ev(s["e"], st), "not")
             self.assume_bool(t, st)
-            st.env[s["n"]] = Int(t ^ BV(1))
+            st.env[s["n"]] = Int(t ^ BV(1), jsbool=bool(s.get("jsbool")))
             return None
         if k == "isptr":
             st.env[s["n"]] = Int(z3.If(self.isptr(self.ev(s["e"], st), s["pt"]), BV(1), BV(0)))
@@ -943,6 +946,10 @@ class Exec:
             outs = self.branch(st, z3.Not(trap), work, lambda xs: None, bad)
             outs = [o for o in outs if o.stack]
             return self.resume(outs, st, work)
+        if op in ("EQ", "NE") and s.get("js") in ("===", "!==") and isinstance(a, Int) and isinstance(b, Int) and a.jsbool != b.jsbool:
+            # JavaScript: a boolean is never strictly equal to a number
+            st.env[n] = Int(BV(0 if op == "EQ" else 1))
+            return None
         if op in ("LT", "LE", "GT", "GE", "EQ", "NE"):
             c = {"LT": x < y, "LE": x <= y, "GT": x > y, "GE": x >= y, "EQ": x == y, "NE": x != y}[op]
             st.env[n] = Int(z3.If(c, BV(1), BV(0)))
@@ -1142,7 +1149,9 @@ def compare_function(name, progA, progB, bounds, enter=False, timeout_s=20, igno
     t0 = time.time()
     tb = (bounds or {}).get("seconds")
     if tb:
-        exA.deadline = exB.deadline = t0 + tb
+        # the reference side may use at most half of the time budget, so that the other side always gets to run
+        exA.deadline = t0 + tb / 2.0
+        exB.deadline = t0 + tb
     try:
         pathsA = exA.run(name, args)
     except Unsupported as e:
@@ -1191,5 +1200,9 @@ def compare_function(name, progA, progB, bounds, enter=False, timeout_s=20, igno
                 res["status"] = "inconclusive"
                 res["why"] = "solver unknown on an equivalence query"
     res["feasibility_queries"] = exA.queries + exB.queries
+    if res["status"] == "equal" and res["pairs"] == 0 and (res["bound_ref"] or res["bound_new"]):
+        # every path of one side ran into a bound: nothing was compared, which is not "equal"
+        res["status"] = "skipped"
+        res["why"] = "budget: no pair of paths was completed within the bounds (%d / %d paths cut)" % (res["bound_ref"], res["bound_new"])
     res["wall_s"] = round(time.time() - t0, 2)
     return res
